@@ -113,6 +113,8 @@ def k_constants(base, chk):
 
 def run(chk):
     prog, base = setup(chk)
+    from .common import platform_independence
+    platform_independence(chk, prog)
     from .common import api_surface, ELEMENT_API
     api_surface(chk, prog, 'Element', ELEMENT_API, 'the value/invariant contracts of this check')
     chk.bounds = ["all limb vectors with every limb <= B = 2^51+2^38 (closed representation invariant); carryPropagate: any 64-bit limbs; Mult32: any y < 2^32",
